@@ -42,7 +42,7 @@ _ATX = re.compile(r'^#{1,6}(?:[ \t]|$)')
 _HR = re.compile(r'^([-_*])(?:[ \t]*\1){2,}[ \t]*$')
 _SETEXT = re.compile(r'^(?:=+|-+)[ \t]*$')
 _DELIM_ROW = re.compile(r'^\s*\|?\s*:?-+:?\s*(?:\|\s*:?-+:?\s*)*\|?\s*$')
-_LIST = re.compile(r'^(?:[-+*]|\d{1,9}[.)])(?:[ \t]|$)')
+_LIST = re.compile(r'^(?:[-+*]|[0-9]{1,9}[.)])(?:[ \t]|$)')
 _FENCE = re.compile(r'^(?:`{3,}|~{3,})')
 _CHARREF = re.compile(r'&(?:#[0-9]{1,7}|#[xX][0-9a-fA-F]{1,6}|[A-Za-z][A-Za-z0-9]{1,31});')
 _BACKTICKS = re.compile(r'`+')
